@@ -2,7 +2,7 @@
 C08 — Service: each request gets exactly one outcome; contexts follow their schedule.
 Headline theorems about the model `Irismod.Service` (every state, every operation).
 -/
-import Irismod.Proofs.ServiceDeposit
+import Irismod.Proofs.ServiceOutcome
 import Irismod.Spec.C08
 
 namespace Irismod.Props.C08
@@ -330,5 +330,81 @@ theorem due_entry_processed_partial (s : State) (id : CtxId)
         · exact hdel _
       · exact hdel _
   · exact hdel _
+
+/-! ### the outcome automaton over histories -/
+
+/-- **absorbing**: a request that is not active and whose issue height lies in the past is never active
+again, whatever happens — so an answered or expired request stays answered / expired -/
+theorem no_reactivation (s : State) (rid : ReqId) (h1 : rid ∉ s.active) (h2 : rid.h < s.height) (ops : List Op) :
+    rid ∉ (run s ops).active := by
+  intro h
+  rcases (run_grows ops s).2 rid h with h' | h'
+  · exact h1 h'
+  · omega
+
+/-- requests are stamped with the height of the block that issued them: every active request of a
+reachable state was issued in a past block -/
+theorem active_issued_in_past (s : State) (h0 : s.active = []) (ops : List Op) :
+    ∀ r, r ∈ (run s ops).active → s.height ≤ r.h ∧ r.h < (run s ops).height := by
+  intro r hr
+  rcases (run_grows ops s).2 r hr with h | h
+  · rw [h0] at h; cases h
+  · exact h
+
+/-- **answered once**: after an accepted answer every later answer to the same request is rejected,
+by whoever and after any history -/
+theorem answered_is_final (s0 : State) (h0 : s0.active = []) (ops : List Op) (s' : State) (provider : Addr) (rid : ReqId)
+    (code : Nat) (out : OutKind) (resOk : Bool)
+    (h : stepRespond (run s0 ops) provider (some rid) code out resOk = .ok s') (ops' : List Op)
+    (provider' : Addr) (code' : Nat) (out' : OutKind) (resOk' : Bool) :
+    ∃ e, stepRespond (run s' ops') provider' (some rid) code' out' resOk' = .error e := by
+  obtain ⟨_, hact, hfil, _⟩ := respond_only_addressee_while_active _ _ _ _ _ _ _ h
+  have hin : rid ∈ (run s0 ops).active := by simpa using hact
+  have hpast := (active_issued_in_past s0 h0 ops rid hin).2
+  have hq : Quiet (run s0 ops) s' := by
+    unfold stepRespond at h
+    split at h
+    · cases h
+    exact keeperRespond_quiet h
+  have hgone : rid ∉ s'.active := by
+    rw [hfil, List.mem_filter]; simp
+  have := no_reactivation s' rid hgone (by rw [hq.1]; exact hpast) ops'
+  exact respond_inactive_rejected _ _ _ _ _ _ (by simpa using this)
+
+/-- **expired exactly at the expiration height**: on a well-formed state an active request whose expiration
+height is the current height is no longer active after the end block … -/
+theorem expires_at_expiration_height (s : State) (hw : WF s) (rid : ReqId) (hr : rid ∈ s.active) (hpast : rid.h < s.height)
+    (rq : Req) (hq : AMap.get? s.reqs rid = some rq) (hexp : rq.expH = s.height) : rid ∉ (endBlock s).active := by
+  obtain ⟨rq', c, a1, _, _, _, _, _, a7⟩ := hw.act rid hr
+  rw [hq] at a1
+  have e : rq = rq' := Option.some.inj a1
+  subst e
+  rw [hexp] at a7
+  have hdue : rid.ctx ∈ dueIds s.expQ s.height := (mem_dueIds _ _ _).mpr (hw.expM.2 _ _ a7)
+  intro h
+  unfold endBlock newPhase at h
+  rcases foldl_newBatch_active _ _ rid h with h1 | h1
+  · unfold expiredPhase at h1
+    exact foldl_expireCtx_removes _ s hw (nodup_dueIds _ _ hw.expND)
+      (fun id hm => hw.expM.1 _ _ ((mem_dueIds _ _ _).mp hm)) rid h1 hdue
+  · unfold expiredPhase at h1
+    rw [foldl_expireCtx_height] at h1
+    omega
+
+/-- … and one whose expiration height is not the current height stays active (it cannot expire early or late) -/
+theorem not_expired_before_its_height (s : State) (hw : WF s) (rid : ReqId) (hr : rid ∈ s.active)
+    (rq : Req) (hq : AMap.get? s.reqs rid = some rq) (hexp : rq.expH ≠ s.height) : rid ∈ (endBlock s).active := by
+  obtain ⟨rq', c, a1, _, _, _, _, _, a7⟩ := hw.act rid hr
+  rw [hq] at a1
+  have e : rq = rq' := Option.some.inj a1
+  subst e
+  unfold endBlock newPhase
+  apply foldl_newBatch_mono
+  unfold expiredPhase
+  apply (foldl_expireCtx_active _ s rid).2 hr
+  intro hm
+  have := hw.expM.1 _ _ ((mem_dueIds _ _ _).mp hm)
+  rw [a7] at this
+  exact hexp (Option.some.inj this)
 
 end Irismod.Props.C08
